@@ -360,12 +360,32 @@ Inductive cerr := ENoObject | ECheckpoint | ESigDecode | ENoOracle | EExternal |
                  | EAnte | ENoInner | EWrapper.
 Inductive cres := Accepted (k : ckey) | Rejected (e : cerr).
 
-(* EthAddressFromSignature / TronAddressFromSignature: v = 27|28 is rewritten to 0|1 *)
-Definition norm_v (sig : list Z) : list Z :=
+(* EthAddressFromSignature / TronAddressFromSignature: what is done to byte 64 (V) before go-ethereum's recovery is
+   read from the sources by the translator (Gen_Checkpoint.eth_vnorm / tron_vnorm; today both: V = 27|28 -> 0|1),
+   and so is the minimum length *)
+Definition apply_vnorm (n : vnorm) (v : Z) : Z :=
+  match n with
+  | VSubIf vals d => if existsb (Z.eqb v) vals then v - d else v
+  | VMod m => v mod m
+  | VNone => v
+  end.
+Definition norm_v (n : vnorm) (sig : list Z) : list Z :=
   match nth_error sig 64 with
-  | Some v => if (v =? 27) || (v =? 28) then firstn 64 sig ++ [v - 27] ++ skipn 65 sig else sig
+  | Some v => firstn 64 sig ++ [apply_vnorm n v] ++ skipn 65 sig
   | None => sig
   end.
+Definition chain_vnorm (tron : bool) : vnorm := if tron then tron_vnorm else eth_vnorm.
+Definition chain_minlen (tron : bool) : Z := if tron then tron_sig_minlen else eth_sig_minlen.
+
+(* the external contract's ecrecover takes v in {27, 28}; relayers pass a stored 65-byte signature on with the
+   documented normalisation 0|1 -> 27|28.  A V outside {0,1,27,28} is not a signature the contract can verify. *)
+Definition contract_v (v : Z) : option Z :=
+  if (v =? 0) || (v =? 1) then Some (v + 27) else if (v =? 27) || (v =? 28) then Some v else None.
+(* a normalisation is strict when it maps no other byte value onto the two go-ethereum recovers with *)
+Definition vnorm_strict (n : vnorm) : bool :=
+  forallb (fun v => let w := apply_vnorm n v in
+                    implb ((w =? 0) || (w =? 1)) (match contract_v v with Some _ => true | None => false end))
+          (map Z.of_nat (seq 0 256)).
 
 Section Confirm.
   (* recover tron pre sig: the address string (interned) go-ethereum derives from the public key it
@@ -374,7 +394,7 @@ Section Confirm.
   Variable recover : bool -> list Z -> list Z -> option Z.
 
   Definition sig_signer (tron : bool) (pre sig : list Z) : option Z :=
-    if zlen sig <? 65 then None else recover tron pre (norm_v sig).
+    if zlen sig <? chain_minlen tron then None else recover tron pre (norm_v (chain_vnorm tron) sig).
 
   Definition handle (st : cstate) (m : cmsg) : cres :=
     match assoc okey_eqb (msg_okey m) (st_objs st) with
